@@ -315,6 +315,9 @@ func runProgs(cfg *Config, flavour string) *Report {
 	if cfg.Only < 0 && (flavour == "C03" || flavour == "C19") {
 		directedTake(rep, flavour)
 	}
+	if cfg.Only < 0 && flavour == "C13" {
+		directedMini(rep)
+	}
 	iso := isolate(flavour, cfg, len(cases), 40, 300*time.Millisecond)
 	for i, c := range cases {
 		desc := fmt.Sprintf("run %s with %d query variable(s), force budget %d", c.G.show(), c.NQ, c.Budget)
